@@ -63,16 +63,28 @@ pub fn subs() -> Vec<Box<dyn AnySub>> {
             },
             check: check_window,
         }),
+        // ONE authenticator object asked several times, with different server clocks: each answer is the window's
+        Box::new(Sub {
+            name: "same-authenticator-asked-again",
+            quick: 20_000,
+            thorough: 300_000,
+            strat: || (instant(), proptest::collection::vec(delta_any(), 2..6), any::<bool>()).prop_map(|(t, deltas, through_request)| Again { t, deltas, through_request }).boxed(),
+            check: check_again,
+        }),
         Box::new(Sub {
             name: "renderings",
             quick: 10_000,
             thorough: 200_000,
             strat: || {
-                (plan(quiet_opts()), delta_any(), ts_style(), ts_style())
-                    .prop_map(|(plan, delta, s1, s2)| {
+                (plan(quiet_opts()), delta_any(), ts_style(), ts_style(), 0u8..16)
+                    .prop_map(|(plan, delta, s1, s2, pad)| {
                         // keep the instant exactly representable in both styles: whole seconds
                         let inst = Instant { secs: plan.instant.secs, nanos: 0 };
                         let mut p1 = plan.clone().with_time(inst, s1);
+                        if p1.spec.carrier == Carrier::Header && pad & 3 != 3 {
+                            // optional white space around the header value is not part of the rendering
+                            p1.spec.ts_text = format!("{}{}{}", " ".repeat((pad & 3) as usize), p1.spec.ts_text, " ".repeat((pad >> 2) as usize));
+                        }
                         p1.cfg.now = inst.add_nanos(-delta);
                         Pair { a: WindowCase { plan: p1, delta, provider_ready: (0, None) }, style_b: s2 }
                     })
@@ -193,6 +205,76 @@ fn run_one(w: &WindowCase, cc: &mut CaseCtx) -> Result<Option<bool>, Failure> {
 
 pub fn check_window(w: &WindowCase, cc: &mut CaseCtx) -> CheckResult {
     run_one(w, cc).map(|_| ())
+}
+
+#[derive(Clone, Debug, Serialize, Deserialize)]
+pub struct Again {
+    pub t: Instant,
+    /// t - now for each question, nanoseconds
+    pub deltas: Vec<i128>,
+    /// build the authenticator from a request (CanonicalRequest::get_authenticator) instead of through the builder
+    pub through_request: bool,
+}
+
+pub fn check_again(ag: &Again, cc: &mut CaseCtx) -> CheckResult {
+    use scratchstack_aws_signature::auth::SigV4AuthenticatorBuilder;
+    let Some(ts) = exec::to_datetime(ag.t) else { return Ok(()) };
+    let credential = format!("AKIDEXAMPLE/{}/us-east-1/service/aws4_request", ag.t.date8());
+    let questions: Vec<(i128, chrono::DateTime<chrono::Utc>)> = ag.deltas.iter().filter_map(|d| exec::to_datetime(ag.t.add_nanos(-*d)).map(|n| (*d, n))).collect();
+    let r = std::panic::catch_unwind(std::panic::AssertUnwindSafe(|| {
+        let auth = if ag.through_request {
+            use scratchstack_aws_signature::canonical::CanonicalRequest;
+            let req = http::Request::builder()
+                .method("GET")
+                .uri("/")
+                .header("host", "h.example")
+                .header("x-amz-date", crate::model::time::render(Instant { secs: ag.t.secs, nanos: 0 }, TsStyle::BASIC_Z))
+                .header("authorization", format!("AWS4-HMAC-SHA256 Credential={}, SignedHeaders=host;x-amz-date, Signature={}", credential, "0".repeat(64)))
+                .body(bytes::Bytes::new())
+                .map_err(|e| e.to_string())?;
+            let (parts, body) = req.into_parts();
+            let (cr, _, _) = CanonicalRequest::from_request_parts(parts, body, scratchstack_aws_signature::SignatureOptions::default()).map_err(|e| e.to_string())?;
+            cr.get_authenticator(&scratchstack_aws_signature::NO_ADDITIONAL_SIGNED_HEADERS).map_err(|e| e.to_string())?
+        } else {
+            let mut b = SigV4AuthenticatorBuilder::default();
+            b.credential(credential.clone()).signature("sig".to_string()).request_timestamp(ts).canonical_request_sha256([0u8; 32]);
+            b.build().map_err(|e| e.to_string())?
+        };
+        let mut answers = Vec::new();
+        for (_, now) in &questions {
+            answers.push(auth.prevalidate("us-east-1", "service", *now, chrono::Duration::minutes(15)).map_err(|e| exec::err_info(&e)));
+        }
+        Ok::<_, String>(answers)
+    }));
+    let answers = match r {
+        Err(p) => return Err(Failure::new("panic:prevalidate", format!("prevalidate panicked: {}", exec::panic_message(p)))),
+        Ok(Err(e)) => return Err(harness_bug(format!("authenticator could not be built: {}", e))),
+        Ok(Ok(a)) => a,
+    };
+    // through a request the timestamp has whole seconds
+    let t = if ag.through_request { Instant { secs: ag.t.secs, nanos: 0 } } else { ag.t };
+    let mut kinds = (false, false);
+    for (k, ((_, now), got)) in questions.iter().zip(answers.iter()).enumerate() {
+        let now_i = Instant { secs: now.timestamp(), nanos: now.timestamp_subsec_nanos() };
+        let real = t.total_nanos() - now_i.total_nanos();
+        let inside = real >= -W && real <= W;
+        kinds.0 |= inside;
+        kinds.1 |= !inside;
+        match (inside, got) {
+            (true, Ok(())) => {}
+            (false, Err(e)) if e.kind == Some(crate::types::Kind::SignatureDoesNotMatch) => {}
+            (true, Err(e)) => return Err(Failure::new("again-rejected-inside", format!("question {} of {} to one authenticator ({} ns from the server clock): refused with {:?} {}", k + 1, questions.len(), real, e.kind, e.msg))),
+            (false, Ok(())) => return Err(Failure::new("again-accepted-outside", format!("question {} of {} to one authenticator: {} ns from the server clock, yet prevalidate says Ok (earlier questions: {:?})", k + 1, questions.len(), real, &ag.deltas[..k]))),
+            (false, Err(e)) => return Err(Failure::new("again-wrong-kind", format!("outside the window the answer is {:?}, expected SignatureDoesNotMatch", e.kind))),
+        }
+    }
+    cc.class("asked-again");
+    cc.class_if(kinds.0 && kinds.1, "inside-and-outside-in-one-sequence");
+    if kinds.0 && kinds.1 {
+        cc.nontrivial(digest_of(&[format!("{:?}", ag).as_bytes()]));
+        cc.sample(json!({"request_time": ag.t.compact(), "offsets_ns": ag.deltas.iter().map(|d| d.to_string()).collect::<Vec<_>>(), "through_request": ag.through_request}));
+    }
+    Ok(())
 }
 
 #[derive(Clone, Debug, Serialize, Deserialize)]
